@@ -250,6 +250,12 @@ func serveTCPSocket(conn *net.TCPConn, addr *net.TCPAddr, inbound chan<- Service
 			return
 		}
 
+		// The total length includes the header itself.
+		if totalLen < 6 {
+			util.Log(conn, "Error during header inspection: total length %d is too short", totalLen)
+			return
+		}
+
 		buffer := make([]byte, totalLen)
 		len, err := io.ReadFull(connBuffer, buffer)
 		if err != nil {
